@@ -53,7 +53,7 @@ fn int_set(tier: Tier) -> Vec<u64> {
     }
 }
 
-fn frac_set(tier: Tier) -> Vec<String> {
+fn frac_set(_tier: Tier) -> Vec<String> {
     let mut v = vec![];
     let maxlen = 4;
     for len in 1..=maxlen {
@@ -179,17 +179,22 @@ pub fn run(tier: Tier) -> i32 {
                 for (d, spoken) in fracs.iter().zip(fr_spoken.iter()) {
                     // a lone 'o' between the separator and an ordinary word has no number word next to it: by
                     // the 'o' rule (C18) it is then an ordinary word, so that case is not a decimal
-                    if !d.contains('0') || d == "0" {
+                    if !d.contains('0') {
                         continue;
                     }
                     acc.states += 1;
                     acc.traces += 1;
-                    let spoken_o = spoken.split(' ').map(|w| if w == "zero" { "o" } else { w }).collect::<Vec<_>>().join(" ");
-                    let s = format!("xyzzy {int_text} {} {spoken_o} plugh", l.sep());
-                    let exp = format!("xyzzy {n}{}{d} plugh", l.mark());
-                    let got = guard(|| replace_numbers_in_text(&s, &lang, 0.0)).unwrap_or_else(|p| p);
-                    if got != exp {
-                        ctx.report(acc, Violation { lang: l.code().into(), entry: "replace_text".into(), input: s, threshold: Some(0.0), clause: "rewrite(int sep frac) = int mark frac, zeros dictated as 'o'".into(), expected: exp, observed: got });
+                    for alias in ["o", "nought"] {
+                        if alias == "o" && d == "0" {
+                            continue;
+                        }
+                        let spoken_o = spoken.split(' ').map(|w| if w == "zero" { alias } else { w }).collect::<Vec<_>>().join(" ");
+                        let s = format!("xyzzy {int_text} {} {spoken_o} plugh", l.sep());
+                        let exp = format!("xyzzy {n}{}{d} plugh", l.mark());
+                        let got = guard(|| replace_numbers_in_text(&s, &lang, 0.0)).unwrap_or_else(|p| p);
+                        if got != exp {
+                            ctx.report(acc, Violation { lang: l.code().into(), entry: "replace_text".into(), input: s, threshold: Some(0.0), clause: format!("rewrite(int sep frac) = int mark frac, zeros dictated as '{alias}'"), expected: exp, observed: got });
+                        }
                     }
                 }
             }
